@@ -36,6 +36,30 @@ def model_d6(chk, c):
                            % (res.violated, res.out[-2000:]))
 
 
+def relay_scenarios(chk):
+    """'the rest follow through gossip' on the real gossip nodes (engine G): the leaving node's notification
+    reaches one peer only (as in a cluster with more peers than it notifies, or when it is killed in the middle
+    of leaving); the others must learn that it left - and what it last advertised - from that peer. Judged by
+    TLC on TraceG.tla: DepartureSpreads (ConvergedKnown) at the fixpoint of fair exchanges among the survivors."""
+    from checks import run_schedules
+    nodes = ["a", "b", "c", "d"]
+    behs = []
+    for notified in ("b", "c"):
+        for crash in (True, False):
+            beh = [["UpsertLocal", "a", "k1", "x"], ["UpsertLocal", "b", "k2", "y"], ["Closure", -1, 30],
+                   ["UpsertLocal", "a", "k3", "last-words"], ["DeleteLocal", "a", "k1"],
+                   ["LeaveLocal", "a"], ["LeaveStream", "a", notified]]
+            if crash:
+                beh.append(["Crash", "a"])
+            beh.append(["Closure", -1, 30])
+            behs.append(beh)
+    sched = {"nodes": nodes, "initKnown": True, "streams": True, "behaviours": behs}
+    v, st = run_schedules(chk, sched, "relay", nodes,
+                          invariants=["KeysUnique", "PrefixConsistent", "LeftOnlyByOwner", "NoStepViolation"])
+    if st.get("by_op", {}).get("ClosureEnd", 0) == 0 or st.get("by_op", {}).get("LeaveStream", 0) == 0:
+        raise vp.Machinery("vacuous run: the relay scenarios did not execute")
+
+
 def build_piko():
     out = os.path.join(vp.HBIN, "piko")
     os.makedirs(vp.HBIN, exist_ok=True)
@@ -46,12 +70,13 @@ def build_piko():
 
 
 def cases(tier, seed):
-    allc = [[v, ph, k] for v in ("a", "b", "c") for ph in ("idle", "attached", "inflight", "midshutdown")
+    allc = [[v, ph, k] for v in ("a", "b", "c") for ph in ("idle", "attached", "inflight", "streaming", "midshutdown")
             for k in (False, True) if not (ph == "midshutdown" and k)]
     if tier == "quick":
         # six scenarios, rotating with the seed so that repeated runs cover all of them
         pick = [["a", "attached", False], ["b", "attached", True], ["c", "inflight", False],
-                ["a", "inflight", True], ["b", "midshutdown", False], ["c", "idle", False]]
+                ["a", "inflight", True], ["b", "midshutdown", False], ["c", "idle", False],
+                ["a", "streaming", True], ["b", "streaming", False]]
         rot = seed % 3
         names = ["a", "b", "c"]
         return [[names[(names.index(v) + rot) % 3], ph, k] for v, ph, k in pick]
@@ -82,6 +107,7 @@ def c18(chk):
                         strip=(), timeout=1800)
     if st0.get("by_op", {}).get("StopOrder", 0) == 0:
         raise vp.Machinery("vacuous run: no StopOrder")
+    relay_scenarios(chk)
     pbin = build_piko()
     logdir = os.path.join(vp.OUT, "c18-logs")
     os.makedirs(logdir, exist_ok=True)
